@@ -7,6 +7,7 @@ from fdlstatic import cfg as cfg_lib
 from fdlstatic import idmemo
 from fdlstatic.ctx import Ctx, kwarg
 from fdlstatic.model import AnalysisError, unparse, walk_function, walk_stmts
+from fdlstatic import roles
 from fdlstatic.report import RuleSet
 from fdlstatic.rules import c08
 
@@ -351,8 +352,9 @@ def _loud_rules(ctx: Ctx, rs: RuleSet):
   g = ctx.cfg(f)
   # the `traverser is None` branch: last else raises
   ok = False
+  trav = roles.assigned_from(f, roles.call_of('find_node_traverser'))
   for n in walk_function(f.node):
-    if isinstance(n, ast.If) and 'traverser is None' in unparse(n.test):
+    if isinstance(n, ast.If) and roles.is_none_test(n.test, trav) is True:
       chain = n.body[0] if n.body and isinstance(n.body[0], ast.If) else None
       while chain is not None and len(chain.orelse) == 1 and isinstance(
           chain.orelse[0], ast.If):
@@ -368,10 +370,23 @@ def _loud_rules(ctx: Ctx, rs: RuleSet):
   pf = ctx.func(f'{SER}.Serialization._pyref')
   g = ctx.cfg(pf)
   ok = False
+  imported = roles.assigned_from(pf, roles.call_of('import_symbol'))
   for n in g.nodes():
-    if g.kind[n] == 'if' and 'matches(' in unparse(g.stmt[n].test):
-      t = g.stmt[n].test
-      neg = isinstance(t, ast.UnaryOp) and isinstance(t.op, ast.Not)
+    if g.kind[n] != 'if':
+      continue
+    t = g.stmt[n].test
+    neg = isinstance(t, ast.UnaryOp) and isinstance(t.op, ast.Not)
+    core = t.operand if neg else t
+    # a comparison (operator.is_ / eq through a local, or `is`) of the value
+    # with what importing the symbol gave back
+    cmp_args = []
+    if isinstance(core, ast.Call) and len(core.args) == 2:
+      cmp_args = [unparse(a) for a in core.args]
+    elif isinstance(core, ast.Compare) and len(core.ops) == 1 and isinstance(
+        core.ops[0], (ast.Is, ast.Eq)):
+      cmp_args = [unparse(core.left), unparse(core.comparators[0])]
+    if len(cmp_args) == 2 and pf.params[1] in cmp_args and (
+        set(cmp_args) & imported):
       succ = [x for x, lab in g.succ[n] if lab == ('true' if neg else 'false')]
       r = g.reach(succ, labels=cfg_lib.NO_EXC)
       rets = [x for x in g.nodes() if isinstance(g.stmt[x], ast.Return)]
@@ -387,8 +402,9 @@ def _loud_rules(ctx: Ctx, rs: RuleSet):
             'DeserializationError' in unparse(g.stmt[n])]
   unfl = [n for n in g.nodes() if isinstance(g.stmt[n], ast.Return) and
           'unflatten' in unparse(g.stmt[n])]
+  dtrav = roles.assigned_from(d, roles.call_of('find_node_traverser'))
   tr_none = [n for n in g.nodes() if g.kind[n] == 'if' and
-             'traverser is None' in unparse(g.stmt[n].test)]
+             roles.is_none_test(g.stmt[n].test, dtrav) is True]
   ok = len(raises) >= 2 and bool(unfl) and bool(tr_none) and all(
       g.dominated_by(u, set(tr_none), labels=cfg_lib.NO_EXC) for u in unfl)
   rs.check(ok, rule, f'{d.qualname}:unknown-type',
@@ -402,18 +418,36 @@ def _shape_rules(ctx: Ctx, rs: RuleSet):
              'order and read back from the value slot; history is stripped; '
              'unset parameters stay unset', 4)
   f = ctx.func(f'{SER}.Serialization._serialize')
-  item = None
+  # the loop over zip(<path elements>, <flattened values>) of one traverser
+  trav = roles.assigned_from(f, roles.call_of('find_node_traverser'))
+  pe = roles.assigned_from(f, lambda e: roles.call_of('path_elements')(e) and
+                           unparse(e.func.value) in trav)
+  vals = roles.assigned_from(f, lambda e: roles.call_of('flatten')(e) and
+                             unparse(e.func.value) in trav, position=0)
+  loop = None
   for n in walk_function(f.node):
-    if isinstance(n, ast.Assign) and isinstance(
-        n.value, ast.Tuple) and len(n.value.elts) == 2 and any(
-            isinstance(t, ast.Name) and t.id == 'serialized_item'
-            for t in n.targets):
-      item = n.value
-  ok = item is not None and unparse(item.elts[1]) == 'serialized_value'
-  zip_ok = any(isinstance(n, ast.For) and isinstance(n.iter, ast.Call) and
-               unparse(n.iter.func) == 'zip' and
-               [unparse(a) for a in n.iter.args] == ['path_elements', 'values']
-               for n in walk_function(f.node))
+    if isinstance(n, ast.For) and isinstance(n.iter, ast.Call) and unparse(
+        n.iter.func) == 'zip' and len(n.iter.args) == 2 and unparse(
+            n.iter.args[0]) in pe and unparse(n.iter.args[1]) in vals:
+      loop = n
+  zip_ok = loop is not None
+  ok = False
+  if loop is not None and isinstance(loop.target, ast.Tuple):
+    child = unparse(loop.target.elts[1])
+    # the recursive result for the child ...
+    ser = {t.id for st in ast.walk(loop) if isinstance(st, ast.Assign) and
+           isinstance(st.value, ast.Call) and unparse(st.value.func).endswith(
+               '._serialize') and st.value.args and unparse(
+                   st.value.args[0]) == child
+           for t in st.targets if isinstance(t, ast.Name)}
+    # ... is the second slot of the appended item
+    for st in ast.walk(loop):
+      if isinstance(st, ast.Call) and isinstance(
+          st.func, ast.Attribute) and st.func.attr == 'append' and st.args:
+        for e in roles.expand(f, st.args[0], 2):
+          if isinstance(e, ast.Tuple) and len(e.elts) == 2 and unparse(
+              e.elts[1]) in ser:
+            ok = True
   rs.check(ok and zip_ok, rule, f'{f.qualname}:items',
            'serialized_item = (repr(path_element), serialized child) over '
            'zip(path_elements, values)', ctx.loc(f, f.node))
@@ -430,9 +464,18 @@ def _shape_rules(ctx: Ctx, rs: RuleSet):
            'values are taken from the second slot of every item, unfiltered',
            ctx.loc(d, d.node))
   # unflatten(values, metadata) in that order
+  # values = [second slot of each item], metadata = deserialized metadata
+  vals_d = {t.id for st in walk_function(d.node) if isinstance(st, ast.Assign)
+            and isinstance(st.value, ast.ListComp) and isinstance(
+                st.value.generators[0].target, ast.Tuple)
+            for t in st.targets if isinstance(t, ast.Name)}
+  meta_d = roles.assigned_from(
+      d, lambda e: roles.call_of('_deserialize')(e) and e.args and
+      '_METADATA_KEY' in unparse(e.args[0]))
   ok = any(isinstance(n, ast.Return) and isinstance(n.value, ast.Call) and
            unparse(n.value.func).endswith('unflatten') and
-           [unparse(a) for a in n.value.args] == ['values', 'metadata']
+           len(n.value.args) == 2 and unparse(n.value.args[0]) in vals_d and
+           unparse(n.value.args[1]) in meta_d
            for n in walk_function(d.node))
   rs.check(ok, rule, f'{d.qualname}:unflatten',
            'the node is rebuilt with traverser.unflatten(values, metadata)',
